@@ -96,6 +96,23 @@ func gen(seed int64, n int, tier string) []interface{} {
 				break
 			}
 		}
+		// a second module: another compilation unit of the tree declares the same package and type name (a copied or
+		// generated module) with other members; both are declared types of the tree
+		if k%4 != 3 && r.Intn(6) == 0 {
+			for _, f := range p.Files {
+				if !selected(f) || f.Unit.Kind != "class" {
+					continue
+				}
+				cp := javagen.File{Id: "copy", PathKind: f.PathKind, Dirs: "zz-copy-module", Pkg: f.Pkg}
+				if f.PathKind == "main" {
+					cp.Dirs = "zz-copy-module/" + f.Dirs
+				}
+				cp.Unit = javagen.Unit{Kind: "class", Name: f.Unit.Name}
+				cp.Unit.Members = []javagen.Member{{Kind: "method", Name: "onlyInTheCopy", Type: "void", Mods: []string{"public"}}}
+				p.Files = append(p.Files, cp)
+				break
+			}
+		}
 		c := Case{Case: fmt.Sprintf("rand-%d-%d", seed, k), Files: p.Files, Layout: p.Layout, Runs: [][]int{}}
 		if k%7 == 1 {
 			c.Via = "cli"
